@@ -5,7 +5,7 @@ import GfaProofs.C19
 # C10 — read-only operations never modify anything
 
 In the model every query is a function of the state; the statement that matters is about the *executable* model
-the correspondence check drives: no command other than the five mutators changes the driver's state, so the
+the correspondence check drives: no command other than the seven mutators changes the driver's state, so the
 answers it gives after any number of queries are those of the state before them.  The correspondence check asks the
 library the catalogue of read-only calls between two observations and compares the observations with the model's:
 a query of the library that leaves a trace makes the two differ.
@@ -16,13 +16,13 @@ Field level (lazy decoding replaces a string by an equal-valued object): `C18.ge
 namespace Gfa.C10
 open Driver
 
-def mutators : List String := ["g.new", "g.add", "g.rm", "g.rename", "g.multiply"]
+def mutators : List String := ["g.new", "g.add", "g.rm", "g.rename", "g.multiply", "g.merge", "g.mergeall"]
 
-/-- **frame**: a command that is not one of the five mutators leaves the model Gfa untouched -/
+/-- **frame**: a command that is not one of the seven mutators leaves the model Gfa untouched -/
 theorem step_frame (d : DState) (cmd : String) (args : List (List Char)) (h : cmd ∉ mutators) :
     (step d cmd args).1 = d := by
   simp only [mutators, List.mem_cons, List.not_mem_nil, or_false, not_or] at h
-  obtain ⟨h1, h2, h3, h4, h5⟩ := h
+  obtain ⟨h1, h2, h3, h4, h5, h6, h7⟩ := h
   unfold step
   split <;> first | rfl | (exfalso; simp_all; done) | skip
   all_goals (split <;> rfl)
